@@ -1,19 +1,26 @@
 ------------------------------- MODULE Indexer -------------------------------
 (***************************************************************************)
 (* Control state of ImageD11.indexing.indexer: find / scorethem /           *)
-(* score_all_pairs and the pass loop of indexing.index / do_index           *)
-(* (indexing.py:575-872, 1265-1431).  The numeric sub-steps                 *)
+(* score_all_pairs, the pass loop of indexing.index / do_index              *)
+(* (indexing.py:575-872, 1265-1431) and fight_over_peaks (874-903, what     *)
+(* saveindexing runs before it writes; saveubis changes nothing) between    *)
+(* pair loops on the same indexer.  The numeric sub-steps                   *)
 (* (unitcell.orient, cImageD11.score, score_and_refine, getind) are         *)
 (* abstract: a hit <<i,j>> proposes a candidate orientation Cand[i][j]      *)
 (* (0 = the pair gives nothing useful), a candidate c has a score           *)
 (* (peaks it indexes at the tolerance of the pass) and indexes the peak set *)
-(* Idx[c].  The trace specification binds these to the values logged from   *)
-(* real runs (and the harness recomputes those values with its own          *)
-(* arithmetic).                                                             *)
+(* Idx[c] with fit error Err[c][p] (EMAX = not within the tolerance).  The   *)
+(* trace specification binds these to the values logged from real runs      *)
+(* (and the harness recomputes those values with its own arithmetic).       *)
 (*                                                                         *)
-(* variables  ga[p]  grain of each peak (-1 none; accepted grains are       *)
-(*                   numbered from 1), ubis (accepted <<candidate, pass>>,  *)
-(*                   in order),                                             *)
+(* variables  ga[p]  grain of each peak (-1 none; scorethem numbers the      *)
+(*                   grain it accepts len(scores) + 1, fight_over_peaks     *)
+(*                   relabels every peak with the 0-based position of its   *)
+(*                   owner: only `> -1` / `= -1` is ever tested),           *)
+(*            ubis (accepted <<candidate, pass>>, in order),                *)
+(*            drl[p] (indexer.drlv2: the best fit error fight_over_peaks    *)
+(*            stored for peak p; it is allocated afresh by every call when  *)
+(*            FRESH), saved (fight_over_peaks calls made so far),           *)
 (*            hits (the hit list of the current pair, as a set: the order   *)
 (*            in which find() produced it is any order, so any element may  *)
 (*            be popped next; `top` is the hit being examined),             *)
@@ -28,12 +35,21 @@
 (*            PopHit,                                                       *)
 (*            PopSkip (a peak already assigned, or i = j), PopLow (score    *)
 (*            <= minpks), PopReject (not unique enough), PopAccept,         *)
-(*            EndScore (hits exhausted or ng = max_grains), NextPass        *)
+(*            EndScore (hits exhausted or ng = max_grains), NextPass,       *)
+(*            Save (fight_over_peaks / saveindexing between two pair loops, *)
+(*            at most NSAVE times: the competing-owner rule of              *)
+(*            ScoreAssign.tla - grains presented in order, a peak goes to   *)
+(*            the grain whose error is below EMAX and strictly below what   *)
+(*            is stored for the peak - folded over the accepted list)       *)
 (* checked    GaRange, AcceptedScore (score > the minimum in force at       *)
 (*            acceptance), GrainCap (ng <= max_grains in one scorethem      *)
 (*            call), NoRepeat (a lattice is never accepted twice, also not  *)
 (*            in a later pass), OwnPeaksKept (peaks of an accepted grain    *)
-(*            keep a grain), PairCap (n = NCAP stops the pair loop after    *)
+(*            keep a grain, also across Save), SaveOK (action property:     *)
+(*            after a Save every peak belongs to the accepted grain that    *)
+(*            fits it best, the earlier one on ties, or to none when no     *)
+(*            accepted grain indexes it - stated by brute force, not by     *)
+(*            the fold), PairCap (n = NCAP stops the pair loop after        *)
 (*            NCAP + 1 pairs), Termination (liveness, under WF: every ring  *)
 (*            pair of every pass is tried and the run ends), Completeness   *)
 (*            (at the end every TRUE candidate that scores above the        *)
@@ -42,7 +58,16 @@
 (*            the pair loop is not cut short                                *)
 (* bounds     8 peaks, 2 rings, 5 candidates, <= 2 passes; cfgs: _q / _t    *)
 (*            (closest, one pass), _2p (strict then loose), _all (ALLHITS), *)
-(*            _r1 (rings_to_use = {1}), _cap (n = 1), _noisy / _noisy_t     *)
+(*            _r1 (rings_to_use = {1}), _cap (n = 1), _noisy / _noisy_t,    *)
+(*            _save (two passes with the minima 0 and 1 so that the         *)
+(*            spurious candidate is accepted and competes for peaks,        *)
+(*            NSAVE = 2: every placement of two saves between the ring      *)
+(*            pairs of the history; gas, the peaks per grain, is a          *)
+(*            function of ga and is checked on the real runs by             *)
+(*            TraceIndexer), _save_stale (FRESH = FALSE: the stored         *)
+(*            errors survive a call; EXPECTED to violate NoRepeat: the      *)
+(*            second Save strips the old grains of their peaks and the      *)
+(*            next pair loop accepts them again)                            *)
 (***************************************************************************)
 EXTENDS Integers, Sequences, FiniteSets, TLC
 
@@ -56,7 +81,9 @@ CONSTANTS NOISY,       \* FALSE: ideal instance (Completeness asserted); TRUE: a
           NPASS,       \* 1, or 2: a strict pass (scores ScoreStrict, minimum MINPKS) then a loose one (Score, MINPKS2)
           MINPKS2,
           NCAP,        \* 0: all pairs; n > 0: score_all_pairs(n = NCAP) (the loop breaks once k > n)
-          ALLHITS      \* TRUE: find offers every pair (cosine_tol < 0); FALSE: one partner per first peak
+          ALLHITS,     \* TRUE: find offers every pair (cosine_tol < 0); FALSE: one partner per first peak
+          NSAVE,       \* fight_over_peaks / saveindexing calls the user may make between pair loops
+          FRESH        \* TRUE: fight_over_peaks allocates drlv2 on every call (indexing.py:879); FALSE: it is kept
 
 Peaks == 1..NP
 \* ---- the abstract instance (defined here because cfg files cannot hold functions) --------------
@@ -70,16 +97,22 @@ Idx == << {1, 2, 5}, {3, 4, 6}, {1, 2, 5}, {1, 4}, {7, 8, 1, 2, 5} >>
 Score == << 3, 3, 3, 2, 5 >>
 \* at the strict tolerance of a first pass grain B loses a peak: found only in the loose pass
 ScoreStrict == << 3, 2, 3, 1, 5 >>
+\* fit error of candidate c on peak p (EMAX: p is not within the tolerance of c): the spurious candidate fits peak 1 better
+\* than A does and peak 4 worse than B does
+EMAX == 9
+Err == << <<1, 1, 9, 9, 2, 9, 9, 9>>, <<9, 9, 1, 2, 9, 1, 9, 9>>, <<1, 1, 9, 9, 2, 9, 9, 9>>,
+          <<0, 9, 9, 3, 9, 9, 9, 9>>, <<2, 2, 9, 9, 3, 9, 1, 1>> >>
 True_ == << TRUE, TRUE, TRUE, FALSE, FALSE >>
 Class == << 1, 2, 1, 3, 4 >>
 Cand(i, j) == IF {i, j} = {7, 8} THEN (IF NOISY THEN 5 ELSE 0)
               ELSE IF {i, j} \subseteq Idx[1] THEN (IF 5 \in {i, j} THEN 3 ELSE 1)
               ELSE IF {i, j} \subseteq Idx[2] THEN 2
               ELSE IF {i, j} \subseteq Idx[4] THEN 4 ELSE 0
-ASSUME NP = 8 /\ NR = 2 /\ NC = 5 /\ NPASS \in 1..2 /\ NCAP \in Nat
+ASSUME NP = 8 /\ NR = 2 /\ NC = 5 /\ NPASS \in 1..2 /\ NCAP \in Nat /\ NSAVE \in Nat /\ FRESH \in BOOLEAN
+ASSUME \A c \in 1..NC : \A p \in 1..NP : (Err[c][p] < EMAX) <=> (p \in Idx[c])
 
-VARIABLES ga, ubis, hits, top, pairs, cur, ng, pass, ntried
-vars == <<ga, ubis, hits, top, pairs, cur, ng, pass, ntried>>
+VARIABLES ga, ubis, hits, top, pairs, cur, ng, pass, ntried, drl, saved
+vars == <<ga, ubis, hits, top, pairs, cur, ng, pass, ntried, drl, saved>>
 
 PAIRS_all == {<<r1, r2>> : r1 \in 1..NR, r2 \in 1..NR}
 PAIRS_cross == {<<1, 2>>, <<2, 1>>}
@@ -90,6 +123,7 @@ ScoreAt(c, p) == IF NPASS = 2 /\ p = 1 THEN ScoreStrict[c] ELSE Score[c]
 Init == /\ ga = [p \in Peaks |-> -1]
         /\ ubis = <<>> /\ hits = {} /\ top = <<>>
         /\ pairs = AllPairs /\ cur = <<>> /\ ng = 0 /\ pass = 1 /\ ntried = 0
+        /\ drl = [p \in Peaks |-> EMAX] /\ saved = 0
 
 \* find(): any order of the hits between unassigned peaks of the two rings
 \* the ideal instance uses peaks 1..6 (grains A, B); the noisy one peaks {1,2,5,7,8} (grain A + two strays)
@@ -109,12 +143,12 @@ Find == /\ cur = <<>> /\ pairs # {} /\ ~Capped
         /\ \E pr \in pairs :
              /\ cur' = pr /\ pairs' = pairs \ {pr}
              /\ \E hs \in HitSets(pr[1], pr[2]) : hits' = hs
-        /\ ng' = 0 /\ ntried' = ntried + 1 /\ UNCHANGED <<ga, ubis, top, pass>>
+        /\ ng' = 0 /\ ntried' = ntried + 1 /\ UNCHANGED <<ga, ubis, top, pass, drl, saved>>
 
 \* diff, i, j = self.hits.pop()
 PopHit == /\ cur # <<>> /\ top = <<>> /\ hits # {} /\ ng < MAXGRAINS
           /\ \E h \in hits : top' = h /\ hits' = hits \ {h}
-          /\ UNCHANGED <<ga, ubis, pairs, cur, ng, pass, ntried>>
+          /\ UNCHANGED <<ga, ubis, pairs, cur, ng, pass, ntried, drl, saved>>
 Scoring == cur # <<>> /\ top # <<>>
 Top == top
 Pop == top' = <<>> /\ UNCHANGED hits
@@ -122,32 +156,50 @@ Unassigned(c) == Cardinality({p \in Idx[c] : ga[p] = -1})
 UniqueEnough(c) == Unassigned(c) * UNIQ_DEN > UNIQ_NUM * Cardinality(Idx[c])
 
 PopSkip == /\ Scoring /\ (ga[Top[1]] > -1 \/ ga[Top[2]] > -1 \/ Top[1] = Top[2])
-           /\ Pop /\ UNCHANGED <<ga, ubis, pairs, cur, ng, pass, ntried>>
+           /\ Pop /\ UNCHANGED <<ga, ubis, pairs, cur, ng, pass, ntried, drl, saved>>
 Live == Scoring /\ ga[Top[1]] = -1 /\ ga[Top[2]] = -1 /\ Top[1] # Top[2]
 PopLow == /\ Live /\ (IF Cand(Top[1], Top[2]) = 0 THEN TRUE ELSE ScoreAt(Cand(Top[1], Top[2]), pass) <= MinP(pass))
-          /\ Pop /\ UNCHANGED <<ga, ubis, pairs, cur, ng, pass, ntried>>
+          /\ Pop /\ UNCHANGED <<ga, ubis, pairs, cur, ng, pass, ntried, drl, saved>>
 PopReject == /\ Live /\ Cand(Top[1], Top[2]) # 0
              /\ LET c == Cand(Top[1], Top[2]) IN ScoreAt(c, pass) > MinP(pass) /\ ~UniqueEnough(c)
-             /\ Pop /\ UNCHANGED <<ga, ubis, pairs, cur, ng, pass, ntried>>
+             /\ Pop /\ UNCHANGED <<ga, ubis, pairs, cur, ng, pass, ntried, drl, saved>>
 PopAccept == /\ Live /\ Cand(Top[1], Top[2]) # 0
              /\ LET c == Cand(Top[1], Top[2])
                 IN /\ ScoreAt(c, pass) > MinP(pass) /\ UniqueEnough(c)
                    /\ ga' = [p \in Peaks |-> IF p \in Idx[c] THEN Len(ubis) + 1 ELSE ga[p]]
                    /\ ubis' = Append(ubis, <<c, pass>>)
-             /\ ng' = ng + 1 /\ Pop /\ UNCHANGED <<pairs, cur, pass, ntried>>
+             /\ ng' = ng + 1 /\ Pop /\ UNCHANGED <<pairs, cur, pass, ntried, drl, saved>>
 EndScore == /\ cur # <<>> /\ top = <<>> /\ (hits = {} \/ ng >= MAXGRAINS)
-            /\ cur' = <<>> /\ hits' = {} /\ UNCHANGED <<ga, ubis, top, pairs, ng, pass, ntried>>
+            /\ cur' = <<>> /\ hits' = {} /\ UNCHANGED <<ga, ubis, top, pairs, ng, pass, ntried, drl, saved>>
 \* index() / do_index(): the next (minpks, hkl_tol) setting on the SAME indexer: ga and ubis are kept
 PassDone == cur = <<>> /\ (pairs = {} \/ Capped)
 NextPass == /\ PassDone /\ pass < NPASS
             /\ pass' = pass + 1 /\ pairs' = AllPairs /\ ntried' = 0
-            /\ UNCHANGED <<ga, ubis, hits, top, cur, ng>>
+            /\ UNCHANGED <<ga, ubis, hits, top, cur, ng, drl, saved>>
 
-Next == Find \/ PopHit \/ PopSkip \/ PopLow \/ PopReject \/ PopAccept \/ EndScore \/ NextPass
+\* fight_over_peaks (what saveindexing runs first): labels start at -1; the accepted grains are presented in order with the
+\* labels 0, 1, ...; score_and_assign hands a peak to the presented grain when its error is within the tolerance AND
+\* strictly below the error stored for the peak (ScoreAssign.tla, TakeP); the stored errors start at "none" when the
+\* buffer is allocated by the call (FRESH)
+RECURSIVE Fight(_, _, _)
+Fight(k, lab, d) ==
+   IF k > Len(ubis) THEN <<lab, d>>
+   ELSE LET c == ubis[k][1]
+            take == {p \in Peaks : Err[c][p] < EMAX /\ Err[c][p] < d[p]}
+        IN Fight(k + 1, [p \in Peaks |-> IF p \in take THEN k - 1 ELSE lab[p]],
+                 [p \in Peaks |-> IF p \in take THEN Err[c][p] ELSE d[p]])
+Save == /\ cur = <<>> /\ saved < NSAVE
+        /\ LET r == Fight(1, [p \in Peaks |-> -1], IF FRESH THEN [p \in Peaks |-> EMAX] ELSE drl)
+           IN ga' = r[1] /\ drl' = r[2]
+        /\ saved' = saved + 1
+        /\ UNCHANGED <<ubis, hits, top, pairs, cur, ng, pass, ntried>>
+
+Next == Find \/ PopHit \/ PopSkip \/ PopLow \/ PopReject \/ PopAccept \/ EndScore \/ NextPass \/ Save
 Spec == Init /\ [][Next]_vars /\ WF_vars(Next)
 
 \* ---- properties --------------------------------------------------------------------------------
-GaRange == \A p \in Peaks : ga[p] = -1 \/ ga[p] \in 1..Len(ubis)
+\* 1..Len(ubis) from scorethem, 0..Len(ubis)-1 from fight_over_peaks
+GaRange == \A p \in Peaks : ga[p] \in -1..Len(ubis)
 AcceptedScore == \A k \in 1..Len(ubis) : ScoreAt(ubis[k][1], ubis[k][2]) > MinP(ubis[k][2])
 GrainCap == ng <= MAXGRAINS
 PairCap == NCAP > 0 => ntried <= NCAP + 1
@@ -155,6 +207,14 @@ PairCap == NCAP > 0 => ntried <= NCAP + 1
 NoRepeat == \A a, b \in 1..Len(ubis) : a # b => Class[ubis[a][1]] # Class[ubis[b][1]]
 \* a later grain may take over peaks, but every peak of an accepted grain stays with some grain
 OwnPeaksKept == \A k \in 1..Len(ubis) : \A p \in Idx[ubis[k][1]] : ga[p] > -1
+\* the competing-owner rule, by brute force: after fight_over_peaks a peak belongs to the accepted grain that fits it best
+\* (the earlier one on a tie), to none iff no accepted grain indexes it
+Owners(p) == {k \in 1..Len(ubis) : p \in Idx[ubis[k][1]]}
+Best(p) == IF Owners(p) = {} THEN -1
+           ELSE (CHOOSE k \in Owners(p) : \A m \in Owners(p) :
+                    \/ Err[ubis[k][1]][p] < Err[ubis[m][1]][p]
+                    \/ (Err[ubis[k][1]][p] = Err[ubis[m][1]][p] /\ k <= m)) - 1
+SaveOK == [][(saved' = saved + 1) => (\A p \in Peaks : ga'[p] = Best(p))]_vars
 Finished == PassDone /\ pass = NPASS
 Termination == <>Finished
 \* ideal data: a true grain that scores above the minimum of some pass and owns a hit nothing else explains, on a
